@@ -1,6 +1,7 @@
 import IV.Lemmas.Dr
 import IV.Lemmas.Toposort
 import IV.Lemmas.DrArchive
+import IV.Lemmas.DrWalk
 /-!
 C01 — components run at most once, and only after their dependencies were attempted.
 
@@ -217,6 +218,199 @@ theorem runArchive_once_after_deps (w : World) (pick : List Comp → List Comp) 
       exact ((hs.map _).subset) s2
     · intro c ds d hc hpc hd hm
       exact archive_dep_pruned seed g g' hk hg c ds hc hpc d hd (a3 d hm).2
+
+/-! ### graph construction from a component (`walk_dependencies`, `get_dependency_graph`) -/
+
+/-- `get_dependency_graph` raises for a component that is not registered, and only then -/
+theorem depgraph_unregistered (reg : Reg) (registered : Comp → Bool) (fuel : Nat) (root : Comp) :
+    getDependencyGraph reg registered fuel root = none ↔ registered root = false := by
+  unfold getDependencyGraph
+  cases registered root <;> simp
+  split <;> simp
+
+/-- the graph of a component: distinct keys; EVERY component reachable from the root is a key and its
+entry holds EVERY declared dependency of it and nothing else; there are no other keys.  (`rank` says
+the registry is acyclic; any fuel above the rank of the root will do.) -/
+theorem depgraph_edges (reg : Reg) (registered : Comp → Bool) (rank : Comp → Nat)
+    (hr : ∀ p d, d ∈ reg p → rank d < rank p) (fuel : Nat) (root : Comp) (hf : rank root < fuel)
+    (g : Graph) (h : getDependencyGraph reg registered fuel root = some g) :
+    g.keys.Nodup ∧
+    (∀ c, Reach reg root c → ∃ ds, (c, ds) ∈ g ∧ ∀ d, d ∈ ds ↔ d ∈ reg c) ∧
+    (∀ c ds, (c, ds) ∈ g → Reach reg root c ∧ ∀ d ∈ ds, d ∈ reg c) := by
+  unfold getDependencyGraph at h
+  split at h
+  · cases h
+  · split at h
+    · rename_i he
+      have he' : reg root = [] := List.isEmpty_iff.mp he
+      simp only [Option.some.injEq] at h; subst h
+      refine ⟨by simp [Graph.keys], ?_, ?_⟩
+      · intro c hc
+        cases hc with
+        | refl _ => exact ⟨[], by simp, by simp [he']⟩
+        | head hd _ => rw [he'] at hd; simp at hd
+      · intro c ds hm
+        simp only [List.mem_singleton] at hm
+        obtain ⟨rfl, rfl⟩ := Prod.mk.inj hm
+        exact ⟨Reach.refl _, by simp⟩
+    · rename_i hne
+      simp only [Option.some.injEq] at h; subst h
+      have hne' : reg root ≠ [] := fun e => hne (by simp [e])
+      have hcomp := fun c hc d hd => visit_complete reg rank hr root c hc fuel d hf hd
+      have hsound := visit_sound reg fuel root
+      refine ⟨closeGraph_keys_nodup _ (by rw [graphOfEdges_keys]; exact dedup_nodup _), ?_, ?_⟩
+      · intro c hc
+        cases hrc : reg c with
+        | nil =>
+          rcases reach_parent hc with rfl | ⟨p, hp, hcp⟩
+          · exact absurd hrc hne'
+          · obtain ⟨dsp, hdsp⟩ := graphOfEdges_key _ p c (hcomp p hp c hcp)
+            have hcd : c ∈ dsp := ((graphOfEdges_mem _ p dsp hdsp).2 c).mpr (hcomp p hp c hcp)
+            have hnk : c ∉ (graphOfEdges (visit reg fuel root)).keys := by
+              rw [graphOfEdges_keys, dedup_mem, List.mem_map]
+              rintro ⟨⟨a, b⟩, hab, rfl⟩
+              have := (hsound a b hab).2
+              rw [hrc] at this; simp at this
+            exact ⟨[], closeGraph_extra _ c hnk (p, dsp) hdsp hcd, by simp⟩
+        | cons d0 rest =>
+          have hd0 : d0 ∈ reg c := by rw [hrc]; simp
+          obtain ⟨ds, hds⟩ := graphOfEdges_key _ c d0 (hcomp c hc d0 hd0)
+          refine ⟨ds, closeGraph_mem_left _ _ hds, ?_⟩
+          intro d
+          rw [(graphOfEdges_mem _ c ds hds).2 d, ← hrc]
+          exact ⟨fun hm => (hsound c d hm).2, fun hm => hcomp c hc d hm⟩
+      · intro c ds hm
+        rcases closeGraph_mem _ c ds hm with hm | ⟨rfl, _, kv, hkv, hckv⟩
+        · obtain ⟨⟨d, hd⟩, hiff⟩ := graphOfEdges_mem _ c ds hm
+          exact ⟨(hsound c d hd).1, fun d' hd' => (hsound c d' ((hiff d').mp hd')).2⟩
+        · have he := ((graphOfEdges_mem _ kv.1 kv.2 hkv).2 c).mp hckv
+          obtain ⟨h1, h2⟩ := hsound kv.1 c he
+          exact ⟨reach_step h1 h2, by simp⟩
+
+/-- the graph of a component IS sorted (the registry being acyclic), for every tie-break -/
+theorem walk_sort_exists (reg : Reg) (registered : Comp → Bool) (rank : Comp → Nat)
+    (hr : ∀ p d, d ∈ reg p → rank d < rank p) (fuel : Nat) (root : Comp) (hf : rank root < fuel)
+    (g : Graph) (h : getDependencyGraph reg registered fuel root = some g) (pick : List Comp → List Comp) :
+    ∃ o, toposort pick g = some o := by
+  obtain ⟨_, _, h3⟩ := depgraph_edges reg registered rank hr fuel root hf g h
+  exact toposort_complete pick g rank (fun c ds hm d hd _ => hr c d ((h3 c ds hm).2 d hd))
+
+/-- walk + extra items + sort: in the run order of the graph of a component every reachable component
+appears once, after every one of its declared dependencies — for every tie-break order -/
+theorem walk_sort_after_deps (reg : Reg) (registered : Comp → Bool) (rank : Comp → Nat)
+    (hr : ∀ p d, d ∈ reg p → rank d < rank p) (fuel : Nat) (root : Comp) (hf : rank root < fuel)
+    (g : Graph) (h : getDependencyGraph reg registered fuel root = some g)
+    (pick : List Comp → List Comp) (hp : ∀ l, (pick l).Perm l) (o : List Comp) (ho : toposort pick g = some o) :
+    o.Nodup ∧ ∀ c, Reach reg root c → c ∈ o ∧ ∀ d ∈ reg c, Before d c o := by
+  obtain ⟨h1, h2, _⟩ := depgraph_edges reg registered rank hr fuel root hf g h
+  obtain ⟨hnd, hs⟩ := toposort_sound pick hp g h1 o ho
+  refine ⟨hnd, ?_⟩
+  intro c hc
+  obtain ⟨ds, hds, hiff⟩ := h2 c hc
+  obtain ⟨hco, hb⟩ := hs c ds hds
+  refine ⟨hco, ?_⟩
+  intro d hd
+  have hne : d ≠ c := by intro e; have := hr c d hd; rw [e] at this; omega
+  exact (hb d ((hiff d).mpr hd) hne).2
+
+/-- the LEVELS of the sort (what `toposort` yields, one set per pass): every key is on some level and each
+of its dependencies (other than itself) on a strictly earlier one -/
+theorem toposort_levels_strict (pick : List Comp → List Comp) (hp : ∀ l, (pick l).Perm l)
+    (g : Graph) (hk : g.keys.Nodup) (ls : List (List Comp))
+    (h : levels pick (prepare g).length (prepare g) = some ls) (c : Comp) (ds : List Comp) (hc : (c, ds) ∈ g) :
+    ∃ i, levelOf c ls = some i ∧ ∀ d ∈ ds, d ≠ c → ∃ j, levelOf d ls = some j ∧ j < i := by
+  obtain ⟨i, hi, hd⟩ := levels_strict pick hp _ _ ls (prepare_keys_nodup g hk) h c _ (prepare_mem g c ds hc)
+  exact ⟨i, hi, fun d hdd hne => hd d (by simp [hdd, hne])⟩
+
+/-- … and so for the graph of a component: a component is on a later level than each of its dependencies -/
+theorem walk_levels_strict (reg : Reg) (registered : Comp → Bool) (rank : Comp → Nat)
+    (hr : ∀ p d, d ∈ reg p → rank d < rank p) (fuel : Nat) (root : Comp) (hf : rank root < fuel)
+    (g : Graph) (h : getDependencyGraph reg registered fuel root = some g)
+    (pick : List Comp → List Comp) (hp : ∀ l, (pick l).Perm l) (ls : List (List Comp))
+    (hl : levels pick (prepare g).length (prepare g) = some ls) (c : Comp) (hc : Reach reg root c) :
+    ∃ i, levelOf c ls = some i ∧ ∀ d ∈ reg c, ∃ j, levelOf d ls = some j ∧ j < i := by
+  obtain ⟨h1, h2, _⟩ := depgraph_edges reg registered rank hr fuel root hf g h
+  obtain ⟨ds, hds, hiff⟩ := h2 c hc
+  obtain ⟨i, hi, hd⟩ := toposort_levels_strict pick hp g h1 ls hl c ds hds
+  refine ⟨i, hi, fun d hdd => hd d ((hiff d).mpr hdd) ?_⟩
+  intro e; have := hr c d hdd; rw [e] at this; omega
+
+/-- `determine_components` on a list: one unregistered member makes the whole call raise -/
+theorem determine_unregistered (reg : Reg) (registered : Comp → Bool) (fuel : Nat) (cs : List Comp)
+    (c : Comp) (hc : c ∈ cs) (hu : registered c = false) : determineList reg registered fuel cs = none := by
+  unfold determineList
+  have hnone : ∀ (l : List Comp), l.foldl (fun acc c => acc.bind fun g =>
+      (getDependencyGraph reg registered fuel c).map (dictUpdate g)) none = none := by
+    intro l; induction l with
+    | nil => rfl
+    | cons a as ih => simpa using ih
+  obtain ⟨pre, post, rfl⟩ := List.append_of_mem hc
+  rw [List.foldl_append, List.foldl_cons]
+  have : (getDependencyGraph reg registered fuel c) = none := (depgraph_unregistered reg registered fuel c).mpr hu
+  rw [this]
+  cases (pre.foldl (fun acc c => acc.bind fun g =>
+      (getDependencyGraph reg registered fuel c).map (dictUpdate g)) (some [])) <;> simpa using hnone post
+
+/-- `determine_components` on a list / set of components: distinct keys; every entry belongs to a component
+reachable from one of them and holds exactly its declared dependencies; every reachable component is a key —
+whatever the order of the list, whatever the components share -/
+theorem determine_edges (reg : Reg) (registered : Comp → Bool) (rank : Comp → Nat)
+    (hr : ∀ p d, d ∈ reg p → rank d < rank p) (fuel : Nat) (cs : List Comp) (hf : ∀ c ∈ cs, rank c < fuel)
+    (g : Graph) (h : determineList reg registered fuel cs = some g) : GoodFor reg cs g := by
+  have gen : ∀ (cs seen : List Comp) (g0 g' : Graph), GoodFor reg seen g0 → (∀ c ∈ cs, rank c < fuel) →
+      cs.foldl (fun acc c => acc.bind fun g => (getDependencyGraph reg registered fuel c).map (dictUpdate g)) (some g0) = some g' →
+      GoodFor reg (seen ++ cs) g' := by
+    intro cs
+    induction cs with
+    | nil => intro seen g0 g' h0 _ he; simp only [List.foldl_nil, Option.some.injEq] at he; subst he; simpa using h0
+    | cons r t ih =>
+      intro seen g0 g' h0 hfu he
+      rw [List.foldl_cons] at he
+      cases hgr : getDependencyGraph reg registered fuel r with
+      | none =>
+        simp only [Option.bind_some, hgr, Option.map_none] at he
+        rw [determine_foldl_none] at he; cases he
+      | some gr =>
+        simp only [Option.bind_some, hgr, Option.map_some] at he
+        obtain ⟨e1, e2, e3⟩ := depgraph_edges reg registered rank hr fuel r (hfu r (by simp)) gr hgr
+        have hstep := goodFor_step reg seen g0 gr r h0 e1 e2 (fun c ds hm => (e3 c ds hm).1)
+        have := ih (seen ++ [r]) _ g' hstep (fun c hc => hfu c (by simp [hc])) he
+        simpa [List.append_assoc] using this
+  have h0 : GoodFor reg [] [] := ⟨by simp [Graph.keys], by simp, by simp⟩
+  have := gen cs [] [] g h0 hf h
+  simpa using this
+
+/-- … so the run order of that graph has every reachable component once, after its declared dependencies -/
+theorem determine_sort_after_deps (reg : Reg) (registered : Comp → Bool) (rank : Comp → Nat)
+    (hr : ∀ p d, d ∈ reg p → rank d < rank p) (fuel : Nat) (cs : List Comp) (hf : ∀ c ∈ cs, rank c < fuel)
+    (g : Graph) (h : determineList reg registered fuel cs = some g)
+    (pick : List Comp → List Comp) (hp : ∀ l, (pick l).Perm l) (o : List Comp) (ho : toposort pick g = some o) :
+    o.Nodup ∧ ∀ r ∈ cs, ∀ c, Reach reg r c → c ∈ o ∧ ∀ d ∈ reg c, Before d c o := by
+  obtain ⟨h1, h2, h3⟩ := determine_edges reg registered rank hr fuel cs hf g h
+  obtain ⟨hnd, hs⟩ := toposort_sound pick hp g h1 o ho
+  refine ⟨hnd, ?_⟩
+  intro r hrc c hc
+  obtain ⟨ds, hds⟩ := (mem_keys_iff g c).mp (h3 r hrc c hc)
+  obtain ⟨hco, hb⟩ := hs c ds hds
+  refine ⟨hco, ?_⟩
+  intro d hd
+  have hne : d ≠ c := by intro e; have := hr c d hd; rw [e] at this; omega
+  exact (hb d (((h2 c ds hds).2 d).mpr hd) hne).2
+
+/-! non-vacuity: a diamond with a shared leaf (0), a component without dependencies, an unregistered one -/
+private def exReg : Reg := fun c => if c = 3 then [2, 1, 0] else if c = 2 then [0, 1] else if c = 1 then [0] else []
+private def exRegd : Comp → Bool := fun c => c < 5
+
+example : getDependencyGraph exReg exRegd 4 3 = some [(2, [0, 1]), (1, [0]), (3, [2, 1, 0]), (0, [])] := by decide
+example : getDependencyGraph exReg exRegd 4 0 = some [(0, [])] := by decide
+example : getDependencyGraph exReg exRegd 4 7 = none := by decide
+example : ∀ p, p < 5 → ∀ d ∈ exReg p, d < p := by decide
+example : Reach exReg 3 0 := Reach.head (d := 2) (by decide) (Reach.head (d := 1) (by decide) (Reach.head (d := 0) (by decide) (Reach.refl 0)))
+example : (getDependencyGraph exReg exRegd 4 3).bind (toposort id) = some [0, 1, 2, 3] := by decide
+example : levels id 4 (prepare [(3, [2, 1, 0]), (2, [0, 1]), (1, [0]), (0, [])]) = some [[0], [1], [2], [3]] := by decide
+example : levelOf 2 [[0], [1], [2], [3]] = some 2 ∧ levelOf 0 [[0], [1], [2], [3]] = some 0 := by decide
+example : determineList exReg exRegd 4 [1, 2] = some [(1, [0]), (0, []), (2, [0, 1])] := by decide
+example : determineList exReg exRegd 4 [1, 7] = none := by decide
 
 /-! ### non-vacuity -/
 
